@@ -67,6 +67,8 @@ Apply(tf, P) ==
 ---------------------------------------------------------------------------
 (* Defining polynomials of the convex primitives: Polys = sequence of integers F, the
    point is inside iff every F < 0; Bnds = the aligned gradient bounds B. *)
+AllNeg(fs) == \A i \in DOMAIN fs : fs[i] < 0
+NearAny(fs, bs, tolinv) == \E i \in DOMAIN fs : Abs(fs[i]) <= bs[i] \div tolinv
 SlabP(c, hD) == <<c - hD, -c - hD>>                 \* |c| < hD
 SlabB(D) == <<D, D>>
 
@@ -96,12 +98,12 @@ Winding(o) == LET a == Area2(o.lo) IN
 GPv(o, i, P) == \* 2 hh D x (vertex i of the cross-section at the point's z)
   LET a == o.hh * P[4] - P[3]  b == o.hh * P[4] + P[3] IN
   <<o.lo[i][1] * a + o.hi[i][1] * b, o.lo[i][2] * a + o.hi[i][2] * b>>
-GPside(o, i, P) == \* > 0 iff the point is on the inner side of side i -> i+1
+GPcross(o, i, P) == \* Winding x this > 0 iff the point is on the inner side of side i -> i+1
   LET j == (i % Len(o.lo)) + 1
       vi == GPv(o, i, P)  vj == GPv(o, j, P)
       e == <<vj[1] - vi[1], vj[2] - vi[2]>>
       w == <<2 * o.hh * P[1] - vi[1], 2 * o.hh * P[2] - vi[2]>>
-  IN Winding(o) * Cross2(e, w)
+  IN Cross2(e, w)
 GPbound(o, i, P) ==
   LET D == P[4]
       j == (i % Len(o.lo)) + 1
@@ -116,9 +118,29 @@ TrdPoly(o) == [k |-> "genprism", hh |-> o.hh,
                lo |-> <<<<o.lo[1], -o.lo[2]>>, <<o.lo[1], o.lo[2]>>, <<-o.lo[1], o.lo[2]>>, <<-o.lo[1], -o.lo[2]>>>>,
                hi |-> <<<<o.hi[1], -o.hi[2]>>, <<o.hi[1], o.hi[2]>>, <<-o.hi[1], o.hi[2]>>, <<-o.hi[1], -o.hi[2]>>>>]
 
-IsPrim(o) == o.k \in {"box", "sphere", "cyl", "cone", "ell", "prism4", "trd", "genprism", "wedge"}
+(* Membership of the convex primitives, stated directly (the second, polynomial form
+   `Polys` below is what the near-surface predicate uses; SolidsMC checks that the two
+   formulations agree: PrimIn(o, P) = AllNeg(Polys(o, P))). *)
+PrimIn(o, P) ==
+  LET X == P[1]  Y == P[2]  Z == P[3]  D == P[4] IN
+  CASE o.k = "box" -> Abs(X) < o.h[1] * D /\ Abs(Y) < o.h[2] * D /\ Abs(Z) < o.h[3] * D
+    [] o.k = "sphere" -> Sq(X) + Sq(Y) + Sq(Z) < Sq(o.r * D)
+    [] o.k = "cyl" -> Abs(Z) < o.hh * D /\ Sq(X) + Sq(Y) < Sq(o.r * D)
+    [] o.k = "cone" -> \* radius at height z interpolates linearly between rlo (-hh) and rhi (+hh)
+         /\ Abs(Z) < o.hh * D
+         /\ Sq(2 * o.hh) * (Sq(X) + Sq(Y)) < Sq(o.rlo * (o.hh * D - Z) + o.rhi * (o.hh * D + Z))
+    [] o.k = "ell" -> Sq(o.r[2] * o.r[3]) * Sq(X) + Sq(o.r[1] * o.r[3]) * Sq(Y)
+                        + Sq(o.r[1] * o.r[2]) * Sq(Z) < Sq(o.r[1] * o.r[2] * o.r[3] * D)
+    [] o.k = "prism4" -> Abs(X) < o.a * D /\ Abs(Y) < o.a * D /\ Abs(Z) < o.hh * D
+    [] o.k = "trd" -> \* half-widths interpolate linearly between lo (-hh) and hi (+hh)
+         /\ Abs(Z) < o.hh * D
+         /\ 2 * o.hh * Abs(X) < o.lo[1] * (o.hh * D - Z) + o.hi[1] * (o.hh * D + Z)
+         /\ 2 * o.hh * Abs(Y) < o.lo[2] * (o.hh * D - Z) + o.hi[2] * (o.hh * D + Z)
+    [] o.k = "genprism" -> \* inside the polygon whose vertices interpolate linearly in z
+         /\ Abs(Z) < o.hh * D
+         /\ LET w == Winding(o) IN \A i \in 1..Len(o.lo) : w * GPcross(o, i, P) > 0
+    [] o.k = "wedge" -> AllNeg(WedgeP(o.s, o.w, P))
 
-RECURSIVE Polys(_, _)
 Polys(o, P) ==
   LET X == P[1]  Y == P[2]  Z == P[3]  D == P[4] IN
   CASE o.k = "box" -> SlabP(X, o.h[1] * D) \o SlabP(Y, o.h[2] * D) \o SlabP(Z, o.h[3] * D)
@@ -128,11 +150,12 @@ Polys(o, P) ==
     [] o.k = "ell" -> <<Sq(o.r[2] * o.r[3]) * Sq(X) + Sq(o.r[1] * o.r[3]) * Sq(Y)
                          + Sq(o.r[1] * o.r[2]) * Sq(Z) - Sq(o.r[1] * o.r[2] * o.r[3]) * Sq(D)>>
     [] o.k = "prism4" -> SlabP(X, o.a * D) \o SlabP(Y, o.a * D) \o SlabP(Z, o.hh * D)
-    [] o.k = "trd" -> Polys(TrdPoly(o), P)
-    [] o.k = "genprism" -> [i \in 1..Len(o.lo) |-> -GPside(o, i, P)] \o SlabP(Z, o.hh * D)
+    [] o.k = "trd" -> LET g == TrdPoly(o) w == Winding(g) IN
+                      [i \in 1..4 |-> -w * GPcross(g, i, P)] \o SlabP(Z, o.hh * D)
+    [] o.k = "genprism" -> LET w == Winding(o) IN
+                           [i \in 1..Len(o.lo) |-> -w * GPcross(o, i, P)] \o SlabP(Z, o.hh * D)
     [] o.k = "wedge" -> WedgeP(o.s, o.w, P)
 
-RECURSIVE Bnds(_, _)
 Bnds(o, P) ==
   LET X == P[1]  Y == P[2]  Z == P[3]  D == P[4] IN
   CASE o.k = "box" -> SlabB(D) \o SlabB(D) \o SlabB(D)
@@ -142,13 +165,10 @@ Bnds(o, P) ==
     [] o.k = "ell" -> <<2 * D * (Sq(o.r[2] * o.r[3]) * (Abs(X) + D) + Sq(o.r[1] * o.r[3]) * (Abs(Y) + D)
                                  + Sq(o.r[1] * o.r[2]) * (Abs(Z) + D))>>
     [] o.k = "prism4" -> SlabB(D) \o SlabB(D) \o SlabB(D)
-    [] o.k = "trd" -> Bnds(TrdPoly(o), P)
+    [] o.k = "trd" -> LET g == TrdPoly(o) IN [i \in 1..4 |-> GPbound(g, i, P)] \o SlabB(D)
     [] o.k = "genprism" -> [i \in 1..Len(o.lo) |-> GPbound(o, i, P)] \o SlabB(D)
     [] o.k = "wedge" -> WedgeB(o.s, o.w, P)
 
-AllNeg(fs) == \A i \in DOMAIN fs : fs[i] < 0
-NearAny(fs, bs, tolinv) == \E i \in DOMAIN fs : Abs(fs[i]) <= bs[i] \div tolinv
-PrimIn(o, P) == AllNeg(Polys(o, P))
 PrimNear(o, P, tolinv) == NearAny(Polys(o, P), Bnds(o, P), tolinv)
 
 ---------------------------------------------------------------------------
@@ -185,8 +205,8 @@ PolyConeNear(o, P, tolinv) ==
 PolyPrismIn(o, P) ==
   /\ \E i \in Segs(o) :
         /\ InZ(o, i, P)
-        /\ AllNeg(SlabP(P[1], o.ro[i] * P[4]) \o SlabP(P[2], o.ro[i] * P[4]))
-        /\ HasInner(o) => ~AllNeg(SlabP(P[1], o.ri[i] * P[4]) \o SlabP(P[2], o.ri[i] * P[4]))
+        /\ Abs(P[1]) < o.ro[i] * P[4] /\ Abs(P[2]) < o.ro[i] * P[4]
+        /\ HasInner(o) => ~(Abs(P[1]) < o.ri[i] * P[4] /\ Abs(P[2]) < o.ri[i] * P[4])
   /\ EaIn(o.ea, P)
 PolyPrismNear(o, P, tolinv) ==
   \/ \E i \in Segs(o) :
@@ -197,40 +217,47 @@ PolyPrismNear(o, P, tolinv) ==
   \/ EaNear(o.ea, P, tolinv)
 
 ---------------------------------------------------------------------------
-(* Membership of an object tree and the exact near-surface predicate *)
-RECURSIVE InSolid(_, _)
-InSolid(o, P) ==
-  CASE IsPrim(o) -> PrimIn(o, P)
+(* Membership of an object tree and the exact near-surface predicate.  `env` gives the
+   value of the unit's shared placed objects at the point ({"k":"ref","i":j} = the j-th
+   entry of the unit's `objs`; users share one object between several region definitions
+   in exactly this way): envIn[j] / envNear[j]. *)
+RECURSIVE InSolidE(_, _, _)
+InSolidE(o, P, env) ==
+  CASE o.k = "tf" -> InSolidE(o.c, InvApply(o.t, P), env)
+    [] o.k = "ref" -> env[o.i]
+    [] o.k = "rdv" -> \A i \in DOMAIN o.c : (o.c[i][1] = "in") = InSolidE(o.c[i][2], P, env)
+    [] o.k = "all" -> \A i \in DOMAIN o.c : InSolidE(o.c[i], P, env)
+    [] o.k = "any" -> \E i \in DOMAIN o.c : InSolidE(o.c[i], P, env)
+    [] o.k = "not" -> ~InSolidE(o.c, P, env)
+    [] o.k = "sub" -> InSolidE(o.a, P, env) /\ ~InSolidE(o.b, P, env)
     [] o.k = "solid" -> /\ PrimIn(o.out, P)
                         /\ Has(o, "inn") => ~PrimIn(o.inn, P)
                         /\ EaIn(o.ea, P)
     [] o.k = "polycone" -> PolyConeIn(o, P)
     [] o.k = "polyprism4" -> PolyPrismIn(o, P)
-    [] o.k = "any" -> \E i \in DOMAIN o.c : InSolid(o.c[i], P)
-    [] o.k = "all" -> \A i \in DOMAIN o.c : InSolid(o.c[i], P)
-    [] o.k = "not" -> ~InSolid(o.c, P)
-    [] o.k = "sub" -> InSolid(o.a, P) /\ ~InSolid(o.b, P)
-    [] o.k = "rdv" -> \A i \in DOMAIN o.c : (o.c[i][1] = "in") = InSolid(o.c[i][2], P)
-    [] o.k = "tf" -> InSolid(o.c, InvApply(o.t, P))
+    [] OTHER -> PrimIn(o, P)
+InSolid(o, P) == InSolidE(o, P, <<>>)
 
-RECURSIVE OnOrNearSurface(_, _, _)
-OnOrNearSurface(o, P, tolinv) ==
-  CASE IsPrim(o) -> PrimNear(o, P, tolinv)
+RECURSIVE NearE(_, _, _, _)
+NearE(o, P, tolinv, env) ==
+  CASE o.k = "tf" -> NearE(o.c, InvApply(o.t, P), tolinv, env)
+    [] o.k = "ref" -> env[o.i]
+    [] o.k = "rdv" -> \E i \in DOMAIN o.c : NearE(o.c[i][2], P, tolinv, env)
+    [] o.k \in {"any", "all"} -> \E i \in DOMAIN o.c : NearE(o.c[i], P, tolinv, env)
+    [] o.k = "not" -> NearE(o.c, P, tolinv, env)
+    [] o.k = "sub" -> NearE(o.a, P, tolinv, env) \/ NearE(o.b, P, tolinv, env)
     [] o.k = "solid" -> \/ PrimNear(o.out, P, tolinv)
                         \/ Has(o, "inn") /\ PrimNear(o.inn, P, tolinv)
                         \/ EaNear(o.ea, P, tolinv)
     [] o.k = "polycone" -> PolyConeNear(o, P, tolinv)
     [] o.k = "polyprism4" -> PolyPrismNear(o, P, tolinv)
-    [] o.k \in {"any", "all"} -> \E i \in DOMAIN o.c : OnOrNearSurface(o.c[i], P, tolinv)
-    [] o.k = "not" -> OnOrNearSurface(o.c, P, tolinv)
-    [] o.k = "sub" -> OnOrNearSurface(o.a, P, tolinv) \/ OnOrNearSurface(o.b, P, tolinv)
-    [] o.k = "rdv" -> \E i \in DOMAIN o.c : OnOrNearSurface(o.c[i][2], P, tolinv)
-    [] o.k = "tf" -> OnOrNearSurface(o.c, InvApply(o.t, P), tolinv)
+    [] OTHER -> PrimNear(o, P, tolinv)
+OnOrNearSurface(o, P, tolinv) == NearE(o, P, tolinv, <<>>)
 
 ---------------------------------------------------------------------------
 (* Units.  A scene is [units |-> <<u0, u1, ...>>, tolinv |-> n, ...]; u0 is the global
-   unit.  unit = [name, boundary (object), bg (label or ""), daughters <<[unit (0-based
-   index), tf]>>, materials <<[label, obj]>>].
+   unit.  unit = [name, boundary (object), bg (label or ""), objs <<shared placed objects>>,
+   daughters <<[unit (0-based index), tf]>>, materials <<[label, obj]>>].
 
    Meaning (UnitProto.hh): a unit's boundary bounds it; a *daughter* is another unit,
    transformed and placed -- it claims the image of ITS boundary; a *material* claims its
@@ -245,13 +272,16 @@ OnOrNearSurface(o, P, tolinv) ==
    extension, "label@unit" (materials and background carry the labels given in the
    scene; the exterior is "[EXTERIOR]@unit"). *)
 DaughterInterior(sc, d) == [k |-> "tf", t |-> d.tf, c |-> sc.units[d.unit + 1].boundary]
+EnvIn(u, P) == [j \in DOMAIN u.objs |-> InSolid(u.objs[j], P)]
+EnvNear(u, P, tolinv) == [j \in DOMAIN u.objs |-> OnOrNearSurface(u.objs[j], P, tolinv)]
 
 RECURSIVE ExpectedVolume(_, _, _, _)
 ExpectedVolume(sc, ui, P, global) ==
   LET u == sc.units[ui + 1]
-      ext == global /\ ~InSolid(u.boundary, P)
+      env == EnvIn(u, P)
+      ext == global /\ ~InSolidE(u.boundary, P, env)
       ds == {i \in DOMAIN u.daughters : InSolid(DaughterInterior(sc, u.daughters[i]), P)}
-      ms == {i \in DOMAIN u.materials : InSolid(u.materials[i].obj, P)}
+      ms == {i \in DOMAIN u.materials : InSolidE(u.materials[i].obj, P, env)}
       n == (IF ext THEN 1 ELSE 0) + Cardinality(ds) + Cardinality(ms)
   IN IF n > 1 THEN "?overlap"
      ELSE IF ext THEN "[EXTERIOR]@" \o u.name
@@ -265,23 +295,11 @@ ExpectedVolume(sc, ui, P, global) ==
 RECURSIVE NearInScene(_, _, _)
 NearInScene(sc, ui, P) ==
   LET u == sc.units[ui + 1]
+      env == EnvNear(u, P, sc.tolinv)
       ds == {i \in DOMAIN u.daughters : InSolid(DaughterInterior(sc, u.daughters[i]), P)}
-  IN \/ OnOrNearSurface(u.boundary, P, sc.tolinv)
+  IN \/ \E j \in DOMAIN env : env[j]
+     \/ NearE(u.boundary, P, sc.tolinv, env)
      \/ \E i \in DOMAIN u.daughters : OnOrNearSurface(DaughterInterior(sc, u.daughters[i]), P, sc.tolinv)
-     \/ \E i \in DOMAIN u.materials : OnOrNearSurface(u.materials[i].obj, P, sc.tolinv)
+     \/ \E i \in DOMAIN u.materials : NearE(u.materials[i].obj, P, sc.tolinv, env)
      \/ \E i \in ds : NearInScene(sc, u.daughters[i].unit, InvApply(u.daughters[i].tf, P))
-
-\* number of leaf primitives by kind (coverage accounting in the trace spec)
-RECURSIVE Leaves(_)
-Leaves(o) ==
-  CASE IsPrim(o) -> <<o.k>>
-    [] o.k = "solid" -> <<"solid:" \o o.out.k>>
-    [] o.k \in {"polycone", "polyprism4"} -> <<o.k>>
-    [] o.k \in {"any", "all"} -> IF o.c = <<>> THEN <<>> ELSE
-         LET R[i \in 1..Len(o.c)] == IF i = 1 THEN Leaves(o.c[1]) ELSE R[i - 1] \o Leaves(o.c[i]) IN R[Len(o.c)]
-    [] o.k = "rdv" ->
-         LET R[i \in 1..Len(o.c)] == IF i = 1 THEN Leaves(o.c[1][2]) ELSE R[i - 1] \o Leaves(o.c[i][2]) IN R[Len(o.c)]
-    [] o.k = "not" -> Leaves(o.c)
-    [] o.k = "sub" -> Leaves(o.a) \o Leaves(o.b)
-    [] o.k = "tf" -> Leaves(o.c)
 =============================================================================
